@@ -157,7 +157,7 @@ def cmd_eval(module, func, style="eval", args=(), kwargs=None, opts=None, path=N
     out["log"] = vlog.take()
     out["ctx_clean"] = getattr(getattr(dds, "_api", None), "_eval_ctx", None) is None
     if cap is not None:
-        out["synced"] = [dict(d) for d in cap.synced]
+        out["synced"] = [dict(d) for d in cap.synced if d]   # a sync_paths call without paths commits nothing
         out["sigs"] = cap.last_sigs()
         out["stored"] = list(cap.stored)
         out["fetched"] = list(cap.fetched)
@@ -300,7 +300,7 @@ def cmd_ipy_eval(func, style="eval"):
     out["log"] = vlog.take()
     out["ctx_clean"] = dds._api._eval_ctx is None
     if cap is not None:
-        out["synced"] = [dict(d) for d in cap.synced]
+        out["synced"] = [dict(d) for d in cap.synced if d]   # a sync_paths call without paths commits nothing
         out["sigs"] = cap.last_sigs()
         out["stored"] = list(cap.stored)
         out["fetched"] = list(cap.fetched)
